@@ -1,0 +1,41 @@
+//go:build verif
+
+package transport_quic
+
+import "sync/atomic"
+
+// verifGateFn is the gate callback installed by the verification harness.
+var verifGateFn atomic.Pointer[func(point string, t *Transport, addr string, lnk *Link, rel bool)]
+
+// VerifSetGate installs fn (nil to remove). fn is called synchronously by the goroutine that
+// reaches one of the named points below, so it can record the event and/or (where noted) block
+// that goroutine to force a schedule. Points:
+//
+//	"quic.session"    (t, as, lnk)        HandleSession, inside t.mtx, before the existing entry for as is looked up; must not block
+//	"quic.close"      (nil, "", lnk)      Link.Close, first statement of the closedOnce body; must not block
+//	"quic.lost.enter" (t, as, lnk)        handleLinkLost, before t.mtx is taken; may block
+//	"quic.lost"       (t, as, lnk, rel)   handleLinkLost, inside t.mtx, after the entry was compared (and deleted if rel); must not block
+func VerifSetGate(fn func(point string, t *Transport, addr string, lnk *Link, rel bool)) {
+	if fn == nil {
+		verifGateFn.Store(nil)
+		return
+	}
+	verifGateFn.Store(&fn)
+}
+
+func verifGate(point string, t *Transport, addr string, lnk *Link, rel bool) {
+	if fn := verifGateFn.Load(); fn != nil {
+		(*fn)(point, t, addr, lnk, rel)
+	}
+}
+
+// VerifSnapshotLinks returns a copy of the address table (takes t.mtx).
+func (t *Transport) VerifSnapshotLinks() map[string]*Link {
+	out := make(map[string]*Link)
+	t.mtx.Lock()
+	for k, v := range t.links {
+		out[k] = v
+	}
+	t.mtx.Unlock()
+	return out
+}
